@@ -4,7 +4,12 @@
 //! and boundary-directed inputs and writes one canonical line per operation; the Lean driver
 //! re-evaluates the same lines with the model.  Statistics go to `<trace-out>.stats.json`.
 
+mod fam_cp;
+mod fam_aut;
 mod fam_cs;
+mod fam_lr;
+mod fam_re;
+mod fam_store;
 mod rng;
 mod trace;
 
@@ -33,6 +38,11 @@ fn main() {
     ));
     match family {
         "cs" => fam_cs::run(&mut t, &mut rng, thorough),
+        "store" => fam_store::run(&mut t, &mut rng, thorough),
+        "aut" => fam_aut::run(&mut t, &mut rng, thorough),
+        "lr" => fam_lr::run(&mut t, &mut rng, thorough),
+        "cp" => fam_cp::run(&mut t, &mut rng, thorough),
+        "re" => fam_re::run(&mut t, &mut rng, thorough),
         _ => {
             eprintln!("unknown family {}", family);
             std::process::exit(2);
